@@ -66,6 +66,8 @@ def run(ctx):
     ctx.evaluations += 2 * k
     ctx.ob('freshness', f'concd ae {k}: {2 * k} encryptions through traits::AE under one key (one plaintext repeated, one empty): nonces pairwise distinct, every ciphertext decrypts', not dup and not fails and bool(vals), str(dup)[:200] + ' '.join(fails[:2]))
     if dup or fails: vf.violation(ctx, 'two DEM encryptions under the same key share their nonce' if dup else fails[0], {'mode': f'ae {k}', 'config': 'default', 'duplicates': {a: b[0] for a, b in dup.items()}})
+    import demcheck as _dc
+    _dc.big_metadata(ctx)
     # the metadata key must differ from the secret handed to the caller, whatever the authentication data
     import demcheck
     d = demcheck.Demd(); same = []
@@ -85,6 +87,10 @@ def run(ctx):
 
 def replay(ctx, path):
     rep = json.load(open(path)); vf.build_harness(ctx, (rep.get('config', 'default'),))
+    if 'bigmeta' in rep:
+        import demcheck
+        vf.build_harness(ctx); d = demcheck.Demd(); o = d.ask(f"HDRBIG {rep['bigmeta']}"); d.close()
+        print(o.replace('_', ' ')[:600]); return 0 if o.split(' ')[-1] == '-' else 1
     if 'script' in rep:
         # a history on which a replaced public value came back: print the published values of the rights line by line
         out = vf.run_lines(vf.harness_bin('kdriver', rep.get('config', 'default')), rep['script'], timeout=300)[0]
